@@ -1873,6 +1873,18 @@ class Tensor:
             if node.parent is None:
                 continue
             view = node.tensor._replay_op(node.parent)
+            if view._base is None and view.data is node.parent.data:
+                # The view-op returned its input array itself (e.g. a squeeze
+                # with nothing to squeeze). `Tensor._op` does not recognize this
+                # as a view when that array owns its memory, as the mutated base
+                # does: the re-created view must keep its base and the information
+                # needed to replay it during the next in-place operation
+                view._base = graph.base.tensor
+                view._creator.replay_args = node.tensor._creator.replay_args
+                view._creator.replay_kwargs = node.tensor._creator.replay_kwargs
+                view._creator.replay_force_constant = (
+                    node.tensor._creator.replay_force_constant
+                )
             _dup.mirror_tensor(source=view, target=node.tensor)
             node.parent._view_children.append(node.tensor)
 
